@@ -142,8 +142,9 @@ package pubsub
 //@   modifies cast(tracker, "*queueNoLimitTrackerImpl").guard, cast(tracker, "*queueHardLimitTracker").guard, cast(tracker, "*queueLimitTrackerImpl").guard
 
 //@ func (*Queue).doAdd
-//@   props C05 C07 C13
-//@   requires qinv(q) && qcounters(q) && wkNE(q) && wkUI(q) && held(q.mu)
+//@   props C05 C07 C13 C20
+//@   requires qinv(q) && qlinks(q) && qcounters(q) && wkNE(q) && wkUI(q) && held(q.mu)
+//@   ensures[C20] qlinks(q)
 //@   modifies q.back, q.back.link, q.view, tfields(q.tracker), qwakes(q)
 //@   ensures[C07] qcounters(q) && wkNE(q) && wkUI(q) && (old(wkUA(q)) ==> wkUA(q))
 //@   ensures[C07] iterwake: result == nil && q.wUI > 0 ==> q.sUI > 0
@@ -155,8 +156,9 @@ package pubsub
 //@   ensures added: !old(q.closed) && old(admits(q.tracker)) ==> result == nil && q.view == old(q.view) + [q.back] && cast(q.back, "*entry").item == item && fresh(q.back)
 
 //@ func (*Queue).popFront
-//@   props C05 C07 C13
-//@   requires qinv(q) && qcounters(q) && len(q.view) > 0 && held(q.mu)
+//@   props C05 C07 C13 C20
+//@   requires qinv(q) && qlinks(q) && qcounters(q) && len(q.view) > 0 && held(q.mu)
+//@   ensures[C20] qlinks(q)
 //@   modifies q.back, q.front.link, q.view, tfields(q.tracker), qwakes(q)
 //@   ensures[C07] qcounters(q) && wkUA(q) && wkUI(q) && (old(wkNE(q)) ==> wkNE(q))
 //@   ghostset q.view = old(q.view)[1:]
@@ -203,7 +205,7 @@ package pubsub
 //@ guarded Queue.{closed,back} by mu
 
 //@ func (*Queue).Add
-//@   props C05 C07 C13
+//@   props C05 C07 C13 C20
 //@   option old section
 //@   requires q != nil && !held(q.mu)
 //@   ensures closed: old(q.closed) ==> result == ErrQueueClosed && q.view == old(q.view)
@@ -213,13 +215,13 @@ package pubsub
 //@   modifies q.back, old(q.back).link, q.view, tfields(q.tracker), qwakes(q)
 
 //@ func (*Queue).Len
-//@   props C05 C13
+//@   props C05 C13 C20
 //@   option old section
 //@   requires q != nil && !held(q.mu)
 //@   ensures result == len(q.view) && q.view == old(q.view)
 
 //@ func (*Queue).Remove
-//@   props C05 C07 C13
+//@   props C05 C07 C13 C20
 //@   option old section
 //@   requires q != nil && !held(q.mu)
 //@   ensures empty: len(old(q.view)) == 0 ==> result1 == false && q.view == old(q.view)
@@ -228,7 +230,7 @@ package pubsub
 //@   modifies q.back, q.front.link, q.view, tfields(q.tracker), qwakes(q)
 
 //@ func (*Queue).Close
-//@   props C05 C07 C13
+//@   props C05 C07 C13 C20
 //@   option old section
 //@   requires q != nil && !held(q.mu)
 //@   ensures result == nil && q.closed == true && q.view == old(q.view) && tunchanged(q.tracker)
@@ -238,22 +240,23 @@ package pubsub
 //@ modset qwakes(q) = q.wNE, q.sNE, q.wUA, q.sUA, q.wUI, q.sUI
 
 //@ func (*Queue).unsafeWaitWhileEmpty
-//@   props C05 C07 C13
+//@   props C05 C07 C13 C20
 //@   option old section
 //@   option waits
 //@   option waitkind take
-//@   requires q != nil && held(q.mu) && qinv(q) && qwake(q) && ctx != nil
+//@   requires q != nil && held(q.mu) && qinv(q) && qlinks(q) && qwake(q) && ctx != nil
 //@   modifies qguarded(q), qwakes(q)
 //@   ensures held(q.mu) && qinv(q)
+//@   ensures[C20] qlinks(q)
 //@   ensures[C07] qwake(q)
 //@   ensures noeffect: unmodified(qguarded(q))
 //@   ensures result == nil ==> len(q.view) > 0
 //@   ensures result != nil ==> len(q.view) == 0
 //@   ensures result != nil ==> (result == ErrQueueClosed && q.closed && len(q.view) == 0) || (result != ErrQueueClosed && done(ctx))
-//@   loop 1 invariant held(q.mu) && qinv(q) && qcounters(q) && wkUA(q) && wkUI(q) && unmodified(qguarded(q))
+//@   loop 1 invariant held(q.mu) && qinv(q) && qlinks(q) && qcounters(q) && wkUA(q) && wkUI(q) && unmodified(qguarded(q))
 
 //@ func (*Queue).Wait
-//@   props C05 C07 C13
+//@   props C05 C07 C13 C20
 //@   option old section
 //@   requires q != nil && !held(q.mu) && ctx != nil
 //@   ensures item: result1 == nil ==> len(old(q.view)) > 0 && result0 == cast(old(q.view[0]), "*entry").item && q.view == old(q.view)[1:]
@@ -262,7 +265,7 @@ package pubsub
 //@   modifies q.back, q.front.link, q.view, tfields(q.tracker), qwakes(q)
 
 //@ func (*Queue).BlockingAdd
-//@   props C05 C07 C13
+//@   props C05 C07 C13 C20
 //@   option old section
 //@   option waitkind add
 //@   requires q != nil && !held(q.mu) && ctx != nil
@@ -272,7 +275,7 @@ package pubsub
 //@   ensures ctxerr: result != nil && result != ErrQueueClosed && !(!old(admits(q.tracker)) && result == old(why(q.tracker))) ==> done(ctx)
 //@   ensures q.closed == old(q.closed)
 //@   modifies q.back, old(q.back).link, q.view, tfields(q.tracker), qwakes(q)
-//@   loop 1 invariant held(q.mu) && qinv(q) && qcounters(q) && wkNE(q) && wkUI(q) && unmodified(qguarded(q))
+//@   loop 1 invariant held(q.mu) && qinv(q) && qlinks(q) && qcounters(q) && wkNE(q) && wkUI(q) && unmodified(qguarded(q))
 
 // ---------------------------------------------------------------------------
 // Deque: circular doubly linked list around a root sentinel.
@@ -294,6 +297,12 @@ package pubsub
 //@ |  && (forall i: int :: 0 <= i && i < len(dq.view) ==> allocated(dq.view[i]) && dq.view[i] != dq.root && cast(dq.view[i], "*element").list == dq && !cast(dq.view[i], "*element").root && cast(dq.view[i], "*element").idx == i && cast(dq.view[i], "*element").guard == dq.mtx)
 //@ |  && (forall i: int :: 0 <= i && i < len(dq.view) - 1 ==> cast(dq.view[i], "*element").next == dq.view[i + 1])
 //@ |  && (forall i: int :: 1 <= i && i < len(dq.view) ==> cast(dq.view[i], "*element").prev == dq.view[i - 1])
+
+// dlinks: an element is "linked" once addAfter has spliced it in (ghost guard ==
+// dq.mtx, never reset; popped elements stay linked and keep next/prev). Linked
+// elements belong to dq and their neighbours are linked, hence non-nil: an
+// iterator standing on any element it was ever given can follow it safely.
+//@ pred dlinks(dq *Deque) = forall e: element :: withtrig(e.next, e.prev, e.list, e.guard == dq.mtx ==> e.list == dq && e.next != nil && e.prev != nil && cast(e.next, "*element").guard == dq.mtx && cast(e.prev, "*element").guard == dq.mtx && (e.root ==> e == dq.root))
 
 // dmember: e is currently a member of dq; dpos: the index at which an element
 // inserted after e lands.
@@ -324,8 +333,9 @@ package pubsub
 // error; both without effect. Otherwise the new element is spliced in after
 // `after` (the root or a member).
 //@ func (*Deque).addAfter
-//@   props C06 C07 C13
-//@   requires dqinv(dq) && dcounters(dq) && held(dq.mtx) && after != nil && (after == dq.root || dmember(dq, after))
+//@   props C06 C07 C13 C20
+//@   requires dqinv(dq) && dlinks(dq) && dcounters(dq) && held(dq.mtx) && after != nil && (after == dq.root || dmember(dq, after))
+//@   ensures[C20] dlinks(dq)
 //@   ensures[C07] dcounters(dq) && (old(dwkF(dq)) ==> dwkF(dq)) && (old(dwkB(dq)) ==> dwkB(dq)) && (old(dwkU(dq)) ==> dwkU(dq))
 //@   modifies after.next, old(after.next).prev, dq.view, element.idx, tfields(dq.tracker), dwakes(dq)
 //@   ghostset dq.view = (result == nil ? insert(old(dq.view), old(dpos(dq, after)), after.next) : old(dq.view))
@@ -339,8 +349,9 @@ package pubsub
 // pop: the sequential removal of `it`. Closed, or `it` is the root sentinel
 // (empty deque): not-ok, no effect.
 //@ func (*Deque).pop
-//@   props C06 C07 C13
-//@   requires dqinv(dq) && dcounters(dq) && held(dq.mtx) && it != nil && (it == dq.root || dmember(dq, it))
+//@   props C06 C07 C13 C20
+//@   requires dqinv(dq) && dlinks(dq) && dcounters(dq) && held(dq.mtx) && it != nil && (it == dq.root || dmember(dq, it))
+//@   ensures[C20] dlinks(dq)
 //@   ensures[C07] dcounters(dq) && (old(dwkF(dq)) ==> dwkF(dq)) && (old(dwkB(dq)) ==> dwkB(dq)) && (old(dwkU(dq)) ==> dwkU(dq))
 //@   modifies it.prev.next, it.next.prev, dq.view, element.idx, tfields(dq.tracker), dwakes(dq)
 //@   ghostset dq.view = (result1 ? remove(old(dq.view), old(it.idx)) : old(dq.view))
@@ -356,6 +367,7 @@ package pubsub
 // ---------------------------------------------------------------------------
 
 //@ lockinv Deque.mtx(dq) = dqinv(dq)
+//@ lockinv[C20] Deque.mtx(dq) = dlinks(dq)
 //@ lockhavoc Deque.mtx(dq) = dq.closed, dq.view, element.next, element.prev, element.idx, tfields(dq.tracker), dq.wNF, dq.sNF, dq.wNB, dq.sNB, dq.wUP, dq.sUP, dq.wFI, dq.sFI, dq.wBI, dq.sBI
 //@ stutter Deque.mtx(dq) = unmodified(dq.closed, dq.view, element.next, element.prev, tfields(dq.tracker))
 //@ cond Deque.nfront lock mtx
@@ -365,20 +377,20 @@ package pubsub
 //@ modset dguarded(dq) = cast(dq, "*Deque").closed, cast(dq, "*Deque").view, element.next, element.prev, element.idx, tfields(cast(dq, "*Deque").tracker)
 
 //@ func (*Deque).Len
-//@   props C06 C13
+//@   props C06 C13 C20
 //@   option old section
 //@   requires dq != nil && dq.mtx != nil && !held(dq.mtx)
 //@   ensures result == len(dq.view) && dq.view == old(dq.view) && (isNoLimit(dq.tracker) || result <= tcap(dq.tracker))
 
 //@ func (*Deque).Close
-//@   props C06 C07 C13
+//@   props C06 C07 C13 C20
 //@   option old section
 //@   requires dq != nil && dq.mtx != nil && !held(dq.mtx)
 //@   ensures result == nil && dq.closed == true && dq.view == old(dq.view) && tunchanged(dq.tracker)
 //@   modifies dq.closed, dwakes(dq)
 
 //@ func (*Deque).PushFront
-//@   props C06 C07 C13
+//@   props C06 C07 C13 C20
 //@   option old section
 //@   requires dq != nil && dq.mtx != nil && !held(dq.mtx)
 //@   ensures closed: old(dq.closed) ==> result == ErrQueueClosed && dq.view == old(dq.view)
@@ -388,7 +400,7 @@ package pubsub
 //@   modifies element.next, element.prev, dq.view, element.idx, tfields(dq.tracker), dwakes(dq)
 
 //@ func (*Deque).PushBack
-//@   props C06 C07 C13
+//@   props C06 C07 C13 C20
 //@   option old section
 //@   requires dq != nil && dq.mtx != nil && !held(dq.mtx)
 //@   ensures closed: old(dq.closed) ==> result == ErrQueueClosed && dq.view == old(dq.view)
@@ -400,7 +412,7 @@ package pubsub
 // "pops return the item currently at the requested end"; after Close (or on an
 // empty deque) not-ok without effect.
 //@ func (*Deque).PopFront
-//@   props C06 C07 C13
+//@   props C06 C07 C13 C20
 //@   option old section
 //@   requires dq != nil && dq.mtx != nil && !held(dq.mtx)
 //@   ensures none: (old(dq.closed) || len(old(dq.view)) == 0) ==> result1 == false && dq.view == old(dq.view)
@@ -409,7 +421,7 @@ package pubsub
 //@   modifies element.next, element.prev, dq.view, element.idx, tfields(dq.tracker), dwakes(dq)
 
 //@ func (*Deque).PopBack
-//@   props C06 C07 C13
+//@   props C06 C07 C13 C20
 //@   option old section
 //@   requires dq != nil && dq.mtx != nil && !held(dq.mtx)
 //@   ensures none: (old(dq.closed) || len(old(dq.view)) == 0) ==> result1 == false && dq.view == old(dq.view)
@@ -420,7 +432,7 @@ package pubsub
 // "a Force push on a full deque evicts exactly one item from the opposite end
 // and then succeeds"; on a deque with room nothing is evicted.
 //@ func (*Deque).ForcePushFront
-//@   props C06 C07 C13
+//@   props C06 C07 C13 C20
 //@   option old section
 //@   requires dq != nil && dq.mtx != nil && !held(dq.mtx)
 //@   ensures closed: old(dq.closed) ==> result == ErrQueueClosed && dq.view == old(dq.view)
@@ -430,7 +442,7 @@ package pubsub
 //@   modifies element.next, element.prev, dq.view, element.idx, tfields(dq.tracker), dwakes(dq)
 
 //@ func (*Deque).ForcePushBack
-//@   props C06 C07 C13
+//@   props C06 C07 C13 C20
 //@   option old section
 //@   requires dq != nil && dq.mtx != nil && !held(dq.mtx)
 //@   ensures closed: old(dq.closed) ==> result == ErrQueueClosed && dq.view == old(dq.view)
@@ -468,20 +480,21 @@ package pubsub
 // iterators (kind iter: `it` is the element at that end of the deque).
 //@ pred atEnd(it *element, direction bool) = direction ? it.prev == it.list.root : it.next == it.list.root
 //@ func (*element).wait
-//@   props C07 C13
+//@   props C07 C13 C20
 //@   option old section
 //@   option waits
 //@   option waitkinds take iter
-//@   requires it != nil && it.list != nil && it.list.mtx != nil && held(it.list.mtx) && dqinv(it.list) && dqwake(it.list) && ctx != nil
+//@   requires it != nil && it.list != nil && it.list.mtx != nil && held(it.list.mtx) && dqinv(it.list) && dlinks(it.list) && dqwake(it.list) && ctx != nil
 //@   requires takes: waitkind("take") ==> it == it.list.root && len(it.list.view) == 0
-//@   requires iters: waitkind("iter") ==> (it == it.list.root || dmember(it.list, it)) && atEnd(it, direction)
+//@   requires iters: waitkind("iter") ==> it.guard == it.list.mtx && atEnd(it, direction)
+//@   ensures[C20] dlinks(it.list)
 //@   modifies dguarded(it.list), dwakes(it.list)
 //@   ensures held(it.list.mtx) && dqinv(it.list)
 //@   ensures[C07] dqwake(it.list)
 //@   ensures noeffect: unmodified(dguarded(it.list))
 //@   ensures woken: result == nil && waitkind("take") ==> len(it.list.view) > 0
 //@   ensures failed: result != nil ==> (result == ErrQueueClosed && it.list.closed) || (result != ErrQueueClosed && done(ctx))
-//@   loop 1 invariant held(it.list.mtx) && dqinv(it.list) && dcounters(it.list) && dwkU(it.list) && unmodified(dguarded(it.list))
+//@   loop 1 invariant held(it.list.mtx) && dqinv(it.list) && dlinks(it.list) && dcounters(it.list) && dwkU(it.list) && unmodified(dguarded(it.list))
 //@   loop 1 invariant waitkind("take") ==> next == it.list.root
 //@   loop 1 invariant (cond != it.list.nfront ==> dwkF(it.list)) && (cond != it.list.nback ==> dwkB(it.list))
 
@@ -489,21 +502,22 @@ package pubsub
 // already holds (WaitFront on a non-empty deque) does not block": the only
 // park is element.wait on the root of an empty deque.
 //@ func (*Deque).waitPop
-//@   props C06 C07 C13
+//@   props C06 C07 C13 C20
 //@   option old section
 //@   option waits
 //@   option waitkind take
-//@   requires dq != nil && dq.mtx != nil && held(dq.mtx) && dqinv(dq) && dqwake(dq) && ctx != nil
+//@   requires dq != nil && dq.mtx != nil && held(dq.mtx) && dqinv(dq) && dlinks(dq) && dqwake(dq) && ctx != nil
 //@   modifies dguarded(dq), dwakes(dq)
 //@   ensures held(dq.mtx) && dqinv(dq)
 //@   ensures[C07] dqwake(dq)
+//@   ensures[C20] dlinks(dq)
 //@   ensures item: result1 == nil ==> !old(dq.closed) && len(old(dq.view)) > 0 && (direction ? result0 == cast(old(dq.view[len(dq.view) - 1]), "*element").item && dq.view == old(dq.view)[:len(old(dq.view)) - 1] : result0 == cast(old(dq.view[0]), "*element").item && dq.view == old(dq.view)[1:])
 //@   ensures noitem: result1 != nil ==> unmodified(dguarded(dq)) && ((result1 == ErrQueueClosed && dq.closed) || (result1 != ErrQueueClosed && done(ctx)))
 //@   ensures dq.closed == old(dq.closed)
-//@   loop 1 invariant held(dq.mtx) && dqinv(dq) && dqwake(dq) && unmodified(dguarded(dq))
+//@   loop 1 invariant held(dq.mtx) && dqinv(dq) && dlinks(dq) && dqwake(dq) && unmodified(dguarded(dq))
 
 //@ func (*Deque).WaitFront
-//@   props C06 C07 C13
+//@   props C06 C07 C13 C20
 //@   option old section
 //@   option waitkind take
 //@   requires dq != nil && dq.mtx != nil && !held(dq.mtx) && ctx != nil
@@ -513,7 +527,7 @@ package pubsub
 //@   modifies element.next, element.prev, dq.view, element.idx, tfields(dq.tracker), dwakes(dq)
 
 //@ func (*Deque).WaitBack
-//@   props C06 C07 C13
+//@   props C06 C07 C13 C20
 //@   option old section
 //@   option waitkind take
 //@   requires dq != nil && dq.mtx != nil && !held(dq.mtx) && ctx != nil
@@ -526,10 +540,10 @@ package pubsub
 // the closures that select the end); its wait loop carries the invariant.
 //@ func (*Deque).waitPushAfter
 //@   inline
-//@   loop 1 invariant held(dq.mtx) && dqinv(dq) && dcounters(dq) && dwkF(dq) && dwkB(dq) && unmodified(dguarded(dq))
+//@   loop 1 invariant held(dq.mtx) && dqinv(dq) && dlinks(dq) && dcounters(dq) && dwkF(dq) && dwkB(dq) && unmodified(dguarded(dq))
 
 //@ func (*Deque).WaitPushFront
-//@   props C06 C07 C13
+//@   props C06 C07 C13 C20
 //@   option old section
 //@   option waitkind push
 //@   requires dq != nil && dq.mtx != nil && !held(dq.mtx) && ctx != nil
@@ -541,7 +555,7 @@ package pubsub
 //@   modifies element.next, element.prev, dq.view, element.idx, tfields(dq.tracker), dwakes(dq)
 
 //@ func (*Deque).WaitPushBack
-//@   props C06 C07 C13
+//@   props C06 C07 C13 C20
 //@   option old section
 //@   option waitkind push
 //@   requires dq != nil && dq.mtx != nil && !held(dq.mtx) && ctx != nil
@@ -559,7 +573,7 @@ package pubsub
 // to the sentinel. The iterator's cursor is the sentinel or a linked entry.
 // ---------------------------------------------------------------------------
 
-//@ pred qlinks(q *Queue) = forall e: entry :: e.guard == q.mu && e.link != nil ==> cast(e.link, "*entry").guard == q.mu && e.link != q.front
+//@ pred qlinks(q *Queue) = forall e: entry :: withtrig(e.link, e.guard == q.mu && e.link != nil ==> cast(e.link, "*entry").guard == q.mu && e.link != q.front)
 //@ lockinv[C20] Queue.mu(q) = qlinks(q)
 
 // waitForLink: wait until an entry is linked after the cursor. It parks only
@@ -601,3 +615,27 @@ package pubsub
 //@   ensures step: result1 == nil ==> next == old(next).link
 //@   modifies cell(next), qwakes(q)
 //@   loop 1 invariant !held(q.mu) && next != nil && next.guard == q.mu
+
+// The non-destructive Deque iterator step (runs under dq.mtx: the producers are
+// wrapped in WithLock). The cursor is the root or an element that was linked
+// at some time (possibly popped since); following it never dereferences nil;
+// a yielded value is the item of a linked non-root element ("never invents");
+// the cursor moves to its neighbour in the iteration direction (members are
+// chained in view order: in order, nothing skipped, each once, absent
+// removals); the non-blocking variants report io.EOF at the end.
+//@ func (*Deque).confProducer$1
+//@   props C20 C13
+//@   option old section
+//@   option waitkind iter
+//@   requires dq != nil && dq.mtx != nil && held(dq.mtx) && dqinv(dq) && dlinks(dq) && dqwake(dq) && ctx != nil && (current != nil ==> current.guard == dq.mtx)
+//@   modifies cell(current), dguarded(dq), dwakes(dq)
+//@   ensures held(dq.mtx) && dqinv(dq) && dlinks(dq) && current != nil && current.guard == dq.mtx
+//@   ensures[C07] dqwake(dq)
+//@   ensures noeffect: unmodified(dguarded(dq))
+//@   ensures notroot: result1 == nil ==> current != dq.root && result0 == current.item
+//@   ensures eof: !blocking && result1 == io_EOF ==> current == old(current == nil ? dq.root : current)
+
+//@ func (*element).isRoot
+//@   props C06 C07 C13 C20
+//@   requires it != nil && (it.root || it.list != nil)
+//@   ensures result == (it.root || it == it.list.root)
